@@ -86,7 +86,7 @@ def c_homog(case, ctx):
     ctx.event("has_true_inverse=%s" % declared)
     before = digest.digest(t)
     inv = t.pseudoinverse()
-    dd = digest.digest_diff(before, digest.digest(t))
+    dd = digest.parameter_mutation(before, digest.digest(t))
     ctx.expect(dd is None, "transform_changed_by_pseudoinverse", lambda: "%s: %r" % (kind, dd))
 
     sc = _scale(x, y, h[:d, d])
@@ -123,6 +123,42 @@ def c_homog(case, ctx):
             ctx.expect(np.array_equal(np.asarray(inv.target.points), src), "alignment_inverse.target_is_not_old_source",
                        lambda: "%s\n%s" % (kind, describe(inv.target.points, src)))
 
+    # the inverse depends only on the CURRENT parameters: invert, re-parametrise (retarget an alignment / from_vector),
+    # invert again - the second inverse must undo the re-parametrised transform
+    t2 = None
+    how = None
+    try:
+        if is_align:
+            how = "set_target"
+            t2 = t.copy()
+            t2.set_target(PointCloud(gen.arr(tc["tgt"])[::-1] * 1.25 + 0.5))
+        else:
+            how = "from_vector"
+            v = t.as_vector()
+            if kind == "Rotation":
+                q2 = v + 0.25 * np.arange(1, v.shape[0] + 1) / v.shape[0]
+                v2 = q2 / np.linalg.norm(q2)
+            elif kind in ("UniformScale", "NonUniformScale"):
+                v2 = v * 1.5
+            elif kind == "Homogeneous":
+                v2 = None
+            else:
+                v2 = v + 0.125
+            if v2 is not None:
+                t2 = t.from_vector(v2)
+    except NotImplementedError:
+        t2 = None
+    if t2 is not None and declared:
+        h2 = np.array(t2.h_matrix, dtype=float, copy=True)
+        c2 = rw.cond_h(h2)
+        if c2 < 1e5:
+            ctx.event("second inverse after %s" % how)
+            inv2 = t2.pseudoinverse()
+            f2 = t2.apply(x)
+            b2 = inv2.apply(f2)
+            ctx.expect(close(b2, x, rtol=0, atol=1e-10 * c2 * _scale(x, f2, h2[:d, d])), "second_inverse_after_reparametrisation_is_stale." + how,
+                       lambda: "%s: pseudoinverse() taken, then %s, then pseudoinverse() again\n%s" % (kind, how, describe(b2, x)))
+
 
 # ------------------------------------------------------------------------------------------ piecewise affine
 @st.composite
@@ -146,6 +182,9 @@ def s_pwa(draw):
     c["shift"] = draw(gen.vec(2))
     c["px"] = draw(objs.bary_picks(1, 6))
     c["py"] = draw(objs.bary_picks(1, 6))
+    # the target may itself be a TriMesh carrying its OWN (different) triangulation: the map and its inverse are
+    # defined by the source's triangle list only
+    c["tgt_form"] = draw(st.sampled_from(["pointcloud", "pointcloud", "trimesh_own"]))
     return c
 
 
@@ -173,13 +212,22 @@ def c_pwa(c, ctx):
         raise AssertionError("generator: a target triangle lost its orientation")
     cls = CachedPWA if c["impl"] == "CachedPWA" else PythonPWA
     ctx.event("%s source=%s" % (c["impl"], c["mode"]))
-    t = cls(source, PointCloud(tgt.copy()))
+    if c.get("tgt_form", "pointcloud") == "trimesh_own":
+        if c["mode"] == "grid":
+            other = np.array(rw.grid_trilist(c["grid"][0], c["grid"][1], [not b for b in c["diag"]]), dtype=int)
+            target_obj = TriMesh(tgt.copy(), trilist=other)
+        else:
+            target_obj = TriMesh(tgt.copy())  # its own Delaunay triangulation
+        ctx.event("target=TriMesh, own trilist %s" % ("differs" if not np.array_equal(np.asarray(target_obj.trilist), trilist) else "equal"))
+    else:
+        target_obj = PointCloud(tgt.copy())
+    t = cls(source, target_obj)
     ctx.expect(np.array_equal(np.asarray(t.trilist), trilist), "pwa.trilist_not_the_expected_one", "")
     declared = bool(t.has_true_inverse)
     ctx.event("has_true_inverse=%s" % declared)
     before = digest.digest(t, skip=_CACHE)
     inv = t.pseudoinverse()
-    dd = digest.digest_diff(before, digest.digest(t, skip=_CACHE))
+    dd = digest.parameter_mutation(before, digest.digest(t, skip=_CACHE))
     ctx.expect(dd is None, "transform_changed_by_pseudoinverse", lambda: repr(dd))
     ctx.expect(isinstance(inv, AbstractPWA), "pwa.inverse_class", "%s -> %s" % (type(t).__name__, type(inv).__name__))
     ctx.event("inverse class %s" % ("same" if type(inv) is type(t) else "other PWA" if isinstance(inv, AbstractPWA) else "not a PWA"))
@@ -232,7 +280,7 @@ def c_tps(c, ctx):
     t = build_tps(src, tgt, kind, msv)
     before = digest.digest(t)
     inv = t.pseudoinverse()
-    dd = digest.digest_diff(before, digest.digest(t))
+    dd = digest.parameter_mutation(before, digest.digest(t))
     ctx.expect(dd is None, "transform_changed_by_pseudoinverse", lambda: repr(dd))
     if not ctx.expect(type(inv) is mt.ThinPlateSplines, "tps.inverse_class", type(inv).__name__):
         return
